@@ -177,9 +177,14 @@ ListOK(c) == /\ c.op = "elp" => (c.noise = "none" /\ c.argform = "tuple")
              /\ c.op = "cond" => c.argform = "bare"
 
 \* ---- the declarative side -----------------------------------------------------------------------
+\* With r = the diagonal of R (per output (i, a) for the multitask family: taskNT), the replay evaluates, in float64,
+\*   expected_log_prob[i] = SUM_a  -1/2 log(2 pi r) - ((y - m)^2 + c) / (2 r)        c = diag C of the input
+\*   log_marginal[i]      = SUM_a  -1/2 log(2 pi (c + r)) - (y - m)^2 / (2 (c + r))
+\*   conditional          = Normal(f, sqrt r)
+\* for the bag Terms(cfg) below, and decodes the bag the code actually used by evaluating the same forms on every
+\* candidate bag.
 CallBatch(c) == IF c.cls = "Dir" THEN <<K>> ELSE IF c.cb THEN c.ib ELSE <<>>
 FixedBatch(c) == IF c.fb THEN c.lb ELSE <<>>
-CallTerm(c) == "call"
 
 Terms(c) ==
   CASE c.cls \in {"G", "GM"} -> IF c.call = "kw" THEN One("call") ELSE One("homo")
@@ -214,7 +219,7 @@ Expected(c) == IF c.cls = "List" THEN ExpectedList(c) ELSE Expected1(c)
 NoKw == [noise |-> "none", nb |-> <<>>]
 Kw(term, nb) == [noise |-> term, nb |-> nb]
 
-\* a shape argument: None, or batch x n  (n: "ev" the event size of the input, "st" anything else is never needed)
+\* a shape argument: None, or batch x n (n is always the event size of the input here, so only the batch part is kept)
 NoneShape == [none |-> TRUE, batch |-> <<>>, err |-> "none"]
 Shape(batch) == [none |-> FALSE, batch |-> batch, err |-> "none"]
 
